@@ -1,4 +1,8 @@
 import SeqVerif.Model.AggLemmas
+import SeqVerif.Model.AggWalk
+import SeqVerif.Model.AggRun4
+import SeqVerif.Model.AggOut
+import SeqVerif.Model.AggE2E
 import SeqVerif.Extracted.C06
 set_option linter.unusedVariables false
 /-!
@@ -44,20 +48,6 @@ theorem c06_merge_tree (lim : Nat) (pick : List Int → Nat) (collect : Bool) (t
     Rep (allVals t.leaves) (allNe t.leaves) collect ((t.eval fun x y => ⟨SC.merge lim pick x.c y.c, [], 0⟩).c) :=
   MTree.rep lim pick collect t hleaf hl
 
-theorem allVals_perm {xs ys : List SLeaf} (p : xs.Perm ys) : (allVals xs).Perm (allVals ys) := by
-  induction p with
-  | nil => exact List.Perm.refl _
-  | cons a _ ih => simpa [allVals] using List.Perm.append_left _ ih
-  | swap a b l =>
-    simp only [allVals, List.flatMap_cons]
-    rw [← List.append_assoc, ← List.append_assoc]
-    exact List.Perm.append_right _ List.perm_append_comm
-  | trans _ _ ih1 ih2 => exact ih1.trans ih2
-
-theorem allNe_perm {xs ys : List SLeaf} (p : xs.Perm ys) : allNe xs = allNe ys := by
-  unfold allNe
-  exact (p.map (·.ne)).sum_nat
-
 /-- **`c06_merge_order_free`**: two merge trees (any bracketing) over any two orderings of the same per-fraction
 partial results give observationally equal containers: same count, not-exists, sum, min, max and the same
 multiset of samples (hence the same quantiles). -/
@@ -73,6 +63,150 @@ theorem c06_merge_order_free (lim : Nat) (pick : List Int → Nat) (collect : Bo
   have h1' := (h1.perm (allVals_perm hperm))
   rw [allNe_perm hperm] at h1'
   exact h1'.eqv h2
+
+/-! ## merge order freedom of whole results (the Go map level) -/
+
+/-- `AggregatableSamples.Merge` bin by bin: a bin of the argument is merged into the (possibly fresh) bin of the
+receiver, other bins stay -/
+theorem c06_merge_bin (lim : Nat) (pick : List Int → Nat) (a b : AS) (hb : KeysNodup b.bins) (k : Bin) :
+    (AS.merge lim pick a b).get k = omerge lim pick (a.get k) (b.get k) ∧
+    (AS.merge lim pick a b).notExists = a.notExists + b.notExists :=
+  ⟨AS.merge_get lim pick a b hb k, rfl⟩
+
+/-- **every bracketing, whole results**: any tree of `Merge` calls over the per-fraction / per-shard results
+gives, bin by bin, a container that exists exactly when some partial result has the bin and summarises the
+concatenation of the partial results' values (per group, per time bin, with the not-exists counts) -/
+theorem c06_merge_tree_results (lim : Nat) (pick : List Int → Nat) (collect : Bool) (t : MTree ALeaf)
+    (hleaf : ∀ l, l ∈ t.leaves → KeysNodup l.a.bins ∧ ∀ k, ORep (l.pres k) (l.vals k) (l.ne k) collect (l.a.get k))
+    (hl : collect = true → ∀ k, (binVals t.leaves k).length ≤ lim) :
+    (t.eval (mergeLeaf lim pick)).a.notExists = (t.leaves.map (·.a.notExists)).sum ∧
+    ∀ k, ORep (binPres t.leaves k) (binVals t.leaves k) (binNe t.leaves k) collect ((t.eval (mergeLeaf lim pick)).a.get k) :=
+  let r := ATree.rep lim pick collect t hleaf hl
+  ⟨r.2.1, fun k => (r.2.2 k).1⟩
+
+/-- **`c06_merge_order_free` for whole results**: two merge trees (any bracketing) over any two orderings of the
+same partial results agree on `NotExists`, on which bins exist and - for every aggregation function, quantile list
+and either `Quantile` - on the bucket `Aggregate` builds for each bin. -/
+theorem c06_merge_order_free_results (lim : Nat) (pick : List Int → Nat) (collect : Bool) (t₁ t₂ : MTree ALeaf)
+    (hperm : t₁.leaves.Perm t₂.leaves)
+    (hleaf : ∀ l, l ∈ t₁.leaves → KeysNodup l.a.bins ∧ ∀ k, ORep (l.pres k) (l.vals k) (l.ne k) collect (l.a.get k))
+    (hl : collect = true → ∀ k, (binVals t₁.leaves k).length ≤ lim) :
+    (t₁.eval (mergeLeaf lim pick)).a.notExists = (t₂.eval (mergeLeaf lim pick)).a.notExists ∧
+    ∀ k, ((t₁.eval (mergeLeaf lim pick)).a.get k = none ∧ (t₂.eval (mergeLeaf lim pick)).a.get k = none) ∨
+      ∃ c₁ c₂, (t₁.eval (mergeLeaf lim pick)).a.get k = some c₁ ∧ (t₂.eval (mergeLeaf lim pick)).a.get k = some c₂ ∧
+        SC.Eqv c₁ c₂ ∧
+        ∀ fixed fn qs, getAggBucket fixed fn qs k c₁ = getAggBucket fixed fn qs k c₂ :=
+  ATree.order_free lim pick collect t₁ t₂ hperm hleaf hl
+
+/-! ## the aggregators: per-fraction results equal values computed from the matching documents
+
+`Ev` = one matching document as the aggregators see it (time bin, group source, field source); `events` produces
+them by the lock-step walk (`c06_walk`).  `gval` / `fval` = token value of a source / parsed field value. -/
+
+/-- **lock-step walk** (`SourcedNodeIterator.ConsumeTokenSource` over `BuildORTreeAgg`): for result LIDs in strict
+iteration order, the successive calls return for every LID a token of the field whose posting list holds the LID,
+and "not exists" exactly when no token's posting list holds it - in both search orders. -/
+theorem c06_walk (rev : Bool) (postings : List (List Nat)) (lids : List Nat)
+    (hp : ∀ l, l ∈ postings → l.Pairwise (· < ·)) (hl : LidsSorted rev lids) :
+    walk rev (buildStream rev postings) lids = lids.map (sourceOf (buildStream rev postings)) ∧
+    ∀ lid, (∀ i, sourceOf (buildStream rev postings) lid = some i → ∃ l, postings[i]? = some l ∧ lid ∈ l) ∧
+           (sourceOf (buildStream rev postings) lid = none → ∀ (i : Nat) (l : List Nat), postings[i]? = some l → lid ∉ l) :=
+  ⟨walk_eq rev _ lids (buildStream_sorted rev postings hp) hl, fun lid => buildStream_sourceOf rev postings lid hp⟩
+
+/-- **`c06_count`** (count per group and time bin, not-exists; legacy `_not_exists` bucket) -/
+theorem c06_count (gval : Nat → String) (evs : List Ev) (hinj : ∀ a b, gval a = gval b → a = b) :
+    (countRun gval evs).notExists = (evs.filter fun ev => ev.g.isNone).length ∧
+    ((countRun gval evs).notExists > 0 →
+      (countRun gval evs).get legacyNotExists = some ⟨0, 0, 0, (countRun gval evs).notExists, 0, []⟩) ∧
+    ∀ m s, (⟨m, gval s⟩ : Bin) ≠ legacyNotExists ∨ (evs.filter fun ev => ev.g.isNone).length = 0 →
+      let n := (evs.filter fun ev => ev.bin = m ∧ ev.g = some s).length
+      (n = 0 → (countRun gval evs).get ⟨m, gval s⟩ = none) ∧
+      (n ≠ 0 → ∃ c, (countRun gval evs).get ⟨m, gval s⟩ = some c ∧ c.total = n) :=
+  countRun_spec gval evs hinj
+
+/-- **`c06_unique`**: the buckets of a unique aggregation are exactly the group tokens of the matching documents -/
+theorem c06_unique (gval : Nat → String) (evs : List Ev) (hinj : ∀ a b, gval a = gval b → a = b) :
+    (uniqRun gval evs).notExists = (evs.filter fun ev => ev.g.isNone).length ∧
+    ∀ s, ((uniqRun gval evs).get ⟨0, gval s⟩).isSome = true ↔ ∃ ev, ev ∈ evs ∧ ev.g = some s :=
+  uniqRun_spec gval evs hinj
+
+/-- **`c06_min/max/sum/total/notExists` per time bin** (sum / min / max / avg / quantile of a field without
+group-by): a bin exists exactly when a matching document falls into it and its container summarises (`Rep`:
+count, sum, min, max, not-exists, samples) exactly those documents' field values -/
+theorem c06_field_stats (lim : Nat) (pick : List Int → Nat) (collect : Bool) (fval : Nat → Option Int) (evs : List Ev)
+    (hp : ParseOk fval evs)
+    (hl : collect = true → ∀ b, (evVals (fun s => (fval s).getD 0) (evs.filter fun ev => ev.bin = b)).length ≤ lim) :
+    ∃ a, histAggRun lim pick collect fval evs = some a ∧ a.notExists = 0 ∧
+      (∀ k, k.token ≠ "" → a.get k = none) ∧
+      ∀ b, (evs.filter (fun ev => ev.bin = b) = [] → a.get ⟨b, ""⟩ = none) ∧
+           (evs.filter (fun ev => ev.bin = b) ≠ [] → ∃ c, a.get ⟨b, ""⟩ = some c ∧
+              Rep (evVals (fun s => (fval s).getD 0) (evs.filter fun ev => ev.bin = b))
+                  (evNe (evs.filter fun ev => ev.bin = b)) collect c) :=
+  histAggRun_spec lim pick collect fval evs hp hl
+
+/-- **`c06_min/max/sum/total/notExists` per group and time bin** (group-by + field) -/
+theorem c06_group_stats (lim : Nat) (pick : List Int → Nat) (collect : Bool) (gval : Nat → String)
+    (fval : Nat → Option Int) (evs : List Ev)
+    (hinj : ∀ a b, gval a = gval b → a = b) (hp : ParseOk fval evs)
+    (hl : collect = true → ∀ m g, (twoDocs m g evs).length ≤ lim) :
+    ∃ a, twoRun lim pick collect gval fval evs = some a ∧
+      a.notExists = (evs.filter fun ev => ev.g.isNone && ev.f.isSome).length ∧
+      ∀ m g,
+        (a.get ⟨m, gval g⟩ = none ∧ twoDocs m g evs = [] ∧ (m ≠ 0 ∨ twoMissing g evs = 0)) ∨
+        (∃ c, a.get ⟨m, gval g⟩ = some c ∧ (twoDocs m g evs ≠ [] ∨ (m = 0 ∧ twoMissing g evs ≠ 0)) ∧
+           Rep (evVals (fun s => (fval s).getD 0) (twoDocs m g evs)) (if m = 0 then twoMissing g evs else 0) collect c) :=
+  twoRun_spec lim pick collect gval fval evs hinj hp hl
+
+/-- time bins of the aggregations follow the histogram rule: `extractBin interval mid = mid - mid % interval`
+for a positive interval, the dummy bin 0 otherwise -/
+theorem c06_time_bin (interval : Int) (mid : Nat) :
+    (interval ≤ 0 → extractBin interval mid = 0) ∧
+    (0 < interval → extractBin interval mid = histBucket interval.toNat mid) := by
+  unfold extractBin histBucket
+  constructor
+  · intro h; simp [h]
+  · intro h; have : ¬ interval ≤ 0 := by omega
+    simp [this]
+
+/-! ## end to end in the model: per-fraction aggregators + any merge tree = values of all matching documents
+
+`Frac` = one fraction (its own token tables `gval` / `fval` - sources are fraction-local - and its matching
+documents `evs`); `TDoc` = a matching document at token level.  These are the statements of C06 for the model. -/
+
+/-- **group-by + field (sum / min / max / avg / quantile per group and time bin)**: whatever tree of `Merge` calls
+combines the per-fraction (per-shard) results, the final bin `(time bin, group token)` exists exactly when some
+matching document belongs to it, and its container summarises (`Rep`: count, sum, min, max, samples) exactly the
+field values of all those documents of all fractions, with the group's not-exists count; `NotExists` of the result
+counts the matching documents that carry the field but no group. -/
+theorem c06_group_stats_merged (lim : Nat) (pick : List Int → Nat) (collect : Bool) (t : MTree Frac)
+    (hok : ∀ f, f ∈ t.leaves → (∀ a b, f.gval a = f.gval b → a = b) ∧ ParseOk f.fval f.evs)
+    (hl : collect = true → ∀ k, (groupVals k (t.leaves.flatMap Frac.tdocs)).length ≤ lim) :
+    (((t.map (Frac.groupLeaf lim pick collect)).eval (mergeLeaf lim pick)).a.notExists =
+        ((t.leaves.flatMap Frac.tdocs).filter fun d => d.g.isNone && d.v.isSome).length) ∧
+    ∀ k, ORep (groupPres k (t.leaves.flatMap Frac.tdocs)) (groupVals k (t.leaves.flatMap Frac.tdocs))
+      (groupMissing k (t.leaves.flatMap Frac.tdocs)) collect
+      (((t.map (Frac.groupLeaf lim pick collect)).eval (mergeLeaf lim pick)).a.get k) :=
+  group_stats_merged lim pick collect t hok hl
+
+/-- **field without group-by, per time bin** (with the per-bin not-exists counts) -/
+theorem c06_field_stats_merged (lim : Nat) (pick : List Int → Nat) (collect : Bool) (t : MTree Frac)
+    (hok : ∀ f, f ∈ t.leaves → ParseOk f.fval f.evs)
+    (hl : collect = true → ∀ k, (t.leaves.flatMap fun f => fieldVals (fun s => (f.fval s).getD 0) k f.evs).length ≤ lim) :
+    ((t.map (Frac.fieldLeaf lim pick collect)).eval (mergeLeaf lim pick)).a.notExists = 0 ∧
+    ∀ k, ORep (t.leaves.any fun f => fieldPres k f.evs)
+      (t.leaves.flatMap fun f => fieldVals (fun s => (f.fval s).getD 0) k f.evs)
+      ((t.leaves.map fun f => fieldMissing k f.evs).sum) collect
+      (((t.map (Frac.fieldLeaf lim pick collect)).eval (mergeLeaf lim pick)).a.get k) :=
+  field_stats_merged lim pick collect t hok hl
+
+/-- **count / unique across any merge tree** (no limit, no well-formedness): the count of a bin is the sum of the
+partial counts, a bin exists exactly when some partial result has it, `NotExists` adds up -/
+theorem c06_counters_merged (lim : Nat) (pick : List Int → Nat) (t : MTree AS)
+    (hleaf : ∀ l, l ∈ t.leaves → KeysNodup l.bins) :
+    (evalAS lim pick t).notExists = (t.leaves.map (·.notExists)).sum ∧
+    ∀ k, ototal ((evalAS lim pick t).get k) = (t.leaves.map fun l => ototal (l.get k)).sum ∧
+         ((evalAS lim pick t).get k).isSome = t.leaves.any fun l => (l.get k).isSome :=
+  (evalAS_counters lim pick t hleaf).2
 
 /-! ## values -/
 
@@ -101,10 +235,11 @@ theorem c06_quantile_exact_merged (fixed : Bool) (pick : List Int → Nat) (t : 
       .int ((isort (allVals t.leaves)).getD (quantileIndex (allVals t.leaves).length qn qd) 0) :=
   (MTree.rep _ pick true t hleaf (fun _ => hl)).quantile hne fixed hq hd
 
-/-- **full statement, for the repaired `Quantile`** (fixes/C06-quantile-min-max-only.patch): with the sample
+/-- **full statement** (for the repaired `Quantile`, /repo commit 4dd0369 = fixes/C06-quantile-min-max-only.patch;
+`c06_x_quantile` checks on every run which `Quantile` the source has): with the sample
 collection rule of `evalAgg` (`collect = haveNotMinMaxQuantiles qs`), *every* requested quantile of *every*
 quantile list is the element of the sorted value list at the index formula. -/
-theorem c06_quantile_all_fixed (vals : List Int) (ne : Nat) (c : SC) (qs : List (Nat × Nat))
+theorem c06_quantile_all (vals : List Int) (ne : Nat) (c : SC) (qs : List (Nat × Nat))
     (h : Rep vals ne (haveNotMinMaxQuantiles qs) c) (hne : vals ≠ [])
     (q : Nat × Nat) (hmem : q ∈ qs) (hq : q.1 ≤ q.2) (hd : 0 < q.2) :
     c.quantile true q.1 q.2 = .int ((isort vals).getD (quantileIndex vals.length q.1 q.2) 0) := by
@@ -116,9 +251,9 @@ theorem c06_quantile_all_fixed (vals : List Int) (ne : Nat) (c : SC) (qs : List 
     exact h.quantile hne true hq hd
   · exact h.quantile_fixed_minmax hne (by omega) hd
 
-/-- the same statement for the `Quantile` as found holds only when the list contains an inner quantile
-(`_partial`: the missing case is refuted by `c06_quantile_minmax_only_defect` below) -/
-theorem c06_quantile_all_partial (vals : List Int) (ne : Nat) (c : SC) (qs : List (Nat × Nat))
+/-- for the `Quantile` as originally found the statement holds only when the list contains an inner quantile
+(`_partial`: the missing case is refuted by `c06_quantile_minmax_only_defect` below; kept as the record of the defect) -/
+theorem c06_quantile_all_old_partial (vals : List Int) (ne : Nat) (c : SC) (qs : List (Nat × Nat))
     (h : Rep vals ne (haveNotMinMaxQuantiles qs) c) (hne : vals ≠ [])
     (hinner : ∃ q, q ∈ qs ∧ 0 < q.1 ∧ q.1 < q.2)
     (q : Nat × Nat) (hmem : q ∈ qs) (hq : q.1 ≤ q.2) (hd : 0 < q.2) :
@@ -153,7 +288,7 @@ theorem c06_hist_bucket (interval mid : Nat) (hi : 0 < interval) :
 theorem c06_hist_merge (dst src : Hist) (hs : KeysNodup src) (k : Nat) :
     histGet (histMerge dst src) k = histGet dst k + histGet src k := histMerge_get dst src hs k
 
-/-! ## the unchanged code violates the property: quantiles 0 and 1 alone
+/-! ## the code as originally found violated the property: quantiles 0 and 1 alone (repaired in 4dd0369)
 
 `evalAgg` collects samples only when some requested quantile lies strictly inside (0,1)
 (`haveNotMinMaxQuantiles`), relying on `Quantile` answering 0 and 1 from Min / Max; but `Quantile` returns NaN
@@ -238,5 +373,33 @@ example :
     (m (m a b) c).sum = 25 ∧ (m c (m b a)).min = -3 := by decide
 
 example : histRun 10 [5, 15, 17, 30] = [(0, 1), (10, 2), (30, 1)] := by decide
+
+/-- hypotheses of `c06_walk` / `c06_group_stats` on a concrete fraction: 5 documents, two group tokens (sources
+0, 1), three field tokens; document 4 lacks the field, document 5 lacks the group -/
+example :
+    walk false [(1, 0), (2, 0), (3, 1), (4, 1)] [1, 2, 3, 4, 5] = [some 0, some 0, some 1, some 1, none] ∧
+    walk true [(4, 1), (3, 1), (2, 0), (1, 0)] [5, 3, 1] = [none, some 1, some 0] := by decide
+
+example : LidsSorted false [1, 2, 3, 4, 5] ∧ LidsSorted true [5, 3, 1] := by
+  unfold LidsSorted; decide
+
+example :
+    twoDocs 0 0 [⟨0, some 0, some 0⟩, ⟨0, some 0, some 1⟩, ⟨0, some 1, some 0⟩, ⟨0, some 1, none⟩, ⟨0, none, some 2⟩] ≠ [] ∧
+    twoMissing 1 [⟨0, some 0, some 0⟩, ⟨0, some 0, some 1⟩, ⟨0, some 1, some 0⟩, ⟨0, some 1, none⟩, ⟨0, none, some 2⟩] = 1 ∧
+    ParseOk (fun i => some (i + 10)) [⟨0, some 0, some 0⟩, ⟨0, some 1, none⟩] := by
+  refine ⟨by decide, by decide, ?_⟩
+  intro ev _ s _; rfl
+
+/-- hypotheses of `c06_group_stats_merged` on concrete fractions: an injective token table, parsable field values -/
+example :
+    let f : Frac := ⟨fun i => String.ofList (List.replicate i 'a'), fun i => some (i + 10),
+      [⟨0, some 0, some 0⟩, ⟨0, some 1, none⟩, ⟨0, none, some 2⟩]⟩
+    ((∀ a b, f.gval a = f.gval b → a = b) ∧ ParseOk f.fval f.evs) ∧
+    groupVals ⟨0, ""⟩ (Frac.tdocs f) = [10] ∧ groupMissing ⟨0, "a"⟩ (Frac.tdocs f) = 1 := by
+  refine ⟨⟨?_, ?_⟩, by decide, by decide⟩
+  · intro a b h
+    have := congrArg String.toList h
+    simpa using this
+  · intro ev _ s _; rfl
 
 end SV.Props.C06
